@@ -530,7 +530,8 @@ pub fn run(ctx: &Ctx) -> PropResult {
     }));
     wls.push(Workload::cases("time_duration_ops", ctx.count(100_000, 3_000_000), |rec, idx, rng| {
         let n = gen_time_nanos(rng);
-        let (d, stratum): (Duration, &'static str) = match rng.below(7) {
+        let (d, stratum): (Duration, &'static str) = match rng.below(9) {
+            7 | 8 => (crate::model::magic::gen_duration(rng), "dur/magic-magnitude(2^k·unit±jitter)"),
             0 => (Duration::new(0, 0), "dur/zero"),
             1 => (Duration::new(rng.below(86_400), rng.below(1_000_000_000) as u32), "dur/<24h"),
             2 => (Duration::new(86_400, 0), "dur/=24h"),
